@@ -83,6 +83,10 @@ def run_symgo(unit, workdir, shard, of, tier):
         cmd += ["-harness", h]
     cmd += unit.get("args", [])
     cmd += unit.get(tier + "_args", [])
+    for k in load_known():
+        # a recorded finding is reported but must not use up the "stop after n findings" budget of the exploration
+        if k.get("status") == "known" and k.get("label") and k.get("property") == unit.get("property"):
+            cmd += ["-known-label", k["label"]]
     if unit.get("smt_log"):
         cmd += ["-smt-log", unit["smt_log"]]
     t0 = time.time()
@@ -180,7 +184,7 @@ def check(pid, tier, spec):
     workdir = tempfile.mkdtemp(prefix="verif_%s_" % pid)
     evid_dir = os.environ.get("VERIF_EVIDENCE_DIR") or os.path.join(VERIF, "evidence")
     os.makedirs(evid_dir, exist_ok=True)
-    units = [u for u in spec["units"] if tier in u.get("tiers", ["quick", "thorough"])]
+    units = [dict(u, property=pid) for u in spec["units"] if tier in u.get("tiers", ["quick", "thorough"])]
     only = os.environ.get("VERIF_UNITS")  # development aid: run a subset of the units (vacuity labels of the others will be missing)
     if only:
         units = [u for u in units if u["name"] in only.split(",")]
